@@ -82,6 +82,10 @@ fn main() {
     std::fs::create_dir_all(&ctx.out).unwrap();
     match (cmd, id.as_str()) {
         ("run", "C15") => c15::run(&mut ctx),
+        ("extract", _) => {
+            // translators: none registered yet
+            return;
+        }
         _ => {
             eprintln!("unknown command {} {}", cmd, id);
             std::process::exit(2);
